@@ -469,3 +469,75 @@ func HarnessC14_Cut() {
 	vAssert(e2 != nil, "the error is permanent")
 	vReach("cut")
 }
+
+// HarnessC14_LimitAcross: the read limit counts a message's payload over all its fragments,
+// whatever control frames arrive in between: data (not final), 0-2 pings/pongs, continuation
+// (final), with the limit around the total.
+func HarnessC14_LimitAcross() {
+	isServer := vBool()
+	n1 := 1 + vChoice(2)
+	n2 := 1 + vChoice(2)
+	limit := 1 + vChoice(4)
+	nctl := vChoice(3)
+	op := uint8(1 + vChoice(2))
+	p1, p2 := vBytes(n1), vBytes(n2)
+	wire := encodeSeqFrame(seqFrame{fin: false, opcode: op, masked: isServer, lenForm: 7, payload: p1})
+	for k := 0; k < nctl; k++ {
+		wire = append(wire, encodeSeqFrame(seqFrame{fin: true, opcode: uint8(9 + vChoice(2)), masked: isServer, lenForm: 7})...)
+	}
+	wire = append(wire, encodeSeqFrame(seqFrame{fin: true, opcode: 0, masked: isServer, lenForm: 7, payload: p2})...)
+	fc := newFakeConn(wire)
+	c := newConn(fc, isServer, 0, 0)
+	c.SetReadLimit(int64(limit))
+	mt, p, err := c.ReadMessage()
+	if n1+n2 > limit {
+		vAssert(err == ErrReadLimit, "a fragmented message larger than the read limit fails with the limit error, control frames in between or not")
+		vReach("across-limit")
+		return
+	}
+	vAssert(err == nil, "a fragmented message within the read limit is delivered")
+	if err != nil {
+		return
+	}
+	vAssert(mt == int(op), "message type as sent")
+	vAssert(len(p) == n1+n2, "message length is the sum of its fragments")
+	if len(p) == n1+n2 {
+		vAssert(vEqBytes(p, append(append([]byte(nil), p1...), p2...)), "message payload is the concatenated fragments")
+	}
+	vReach("across-ok")
+}
+
+// HarnessC14_SmallBuf: control frames of up to 125 bytes are handled whatever read buffer size
+// the application configured: a ping of 17..125 bytes through a read buffer of 1..124 bytes is
+// answered by a pong with the same payload and the following message is delivered.
+func HarnessC14_SmallBuf() {
+	isServer := vBool()
+	rb := []int{1, 16, 64, 124}[vChoice(4)]
+	n := []int{17, 65, 125}[vChoice(3)]
+	ping := vPattern(n, 7)
+	ping[0], ping[n-1] = vU8(), vU8()
+	data := vBytes(2)
+	wire := encodeSeqFrame(seqFrame{fin: true, opcode: 9, masked: isServer, lenForm: 7, payload: ping})
+	wire = append(wire, encodeSeqFrame(seqFrame{fin: true, opcode: 2, masked: isServer, lenForm: 7, payload: data})...)
+	fc := newFakeConn(wire)
+	c := newConn(fc, isServer, rb, 0)
+	mt, p, err := c.ReadMessage()
+	vAssert(err == nil, "the message after a ping is delivered with any configured read buffer size")
+	if err != nil {
+		return
+	}
+	vAssert(mt == BinaryMessage && len(p) == 2, "message as sent")
+	if len(p) == 2 {
+		vAssert(vEqBytes(p, data), "message payload as sent")
+	}
+	sent, ok := parseFrames(fc.wire)
+	vAssert(ok && len(sent) == 1 && sent[0].opcode == 10, "the ping is answered by exactly one pong")
+	if ok && len(sent) == 1 {
+		same := len(sent[0].payload) == n
+		if same {
+			same = vEqBytes(sent[0].payload, ping)
+		}
+		vAssert(same, "pong carries the ping's payload")
+	}
+	vReach("smallbuf")
+}
